@@ -777,10 +777,11 @@ def run(ctx):
                          'attributed to the first listed shape); checked_cases = all others (any failure is a violation)')
     scale = 1.0 / ctx.nshards
     q = ctx.tier == 'quick'
-    ctx.floor('checked_cases_that_agree', int((20000 if q else 200000) * scale))
-    ctx.floor('monitor.environments', int((80000 if q else 800000) * scale))
-    ctx.floor('monitor.loop_structures_compared', int((10000 if q else 100000) * scale))
-    ctx.floor('cache.renamed_twins', int((4000 if q else 40000) * scale))
+    # floors are per shard (each shard judges its own slice), chosen at about a third of what the unchanged tree gives
+    ctx.floor('checked_cases_that_agree', int((20000 if q else 80000) * scale))
+    ctx.floor('monitor.environments', int((80000 if q else 400000) * scale))
+    ctx.floor('monitor.loop_structures_compared', int((10000 if q else 50000) * scale))
+    ctx.floor('cache.renamed_twins', int((4000 if q else 8000) * scale))
 
 
 def replay(ctx, witness):
